@@ -126,6 +126,14 @@ CHECKS = {
               "Tied to the code by 11 signatures (0..12 parameters, all kinds incl. callback and by-value struct) x 4 wrapper forms x 3 live instances with recording guest functions, and by-name "
               "lookups/addresses on instances bound to two libraries exporting the same names. The shared-cache defect (F12) and the stale cache (F6a) were found by C14/C11 ops and repaired."),
         note=NOTE + "Calling convention and machine code of the call are trusted; dlsym is not executed."),
+    "C20": dict(
+        engine="casts", design_ref="DESIGN.md §6 C20",
+        technique="Lean 4 theorems (identity of the opaque image, cast = plain cast after the C06 load, address preservation by the C04 cell-relative translation) + differential execution",
+        text=("Proof: C20_opaque_rt, C20_cast_value, C20_cast_value_tvol (a sandbox-memory source is first loaded per C06: same value or abort), C20_cast_identity_in_range, C20_cast_addr (pointer casts keep "
+              "the designated address; a source stored in sandbox memory is translated relative to its own cell). Tied to the code by opaque round trips with memcmp of the images (integers, pointers, "
+              "array, struct), sandbox_static_cast over 14x14 type pairs from tainted and tainted_volatile sources, pointer casts from both kinds of source, a callback returning tainted_opaque, and the "
+              "same value passed as tainted and as tainted_opaque to a sandbox function."),
+        note=NOTE + "Taint of the results is a static property (decltype asserted at compile time; C01)."),
 }
 
 TODO_REASON = "check not built yet in this round (design in DESIGN.md §6); will be claimed when its theorems and correspondence check exist"
